@@ -99,10 +99,36 @@ pub fn hostile_mutate(scene: &mut Scene, r: &mut Rng, cover: &mut crate::Cover) 
         match item {
             Item::Pc(mut pc) => {
                 if r.chance(1, 2) {
-                    let m = r.usize(18);
+                    let m = if r.chance(1, 60) { 100 } else { r.usize(18) };
                     let p = &mut pc.prototype;
                     let tag;
                     match m {
+                        100 => {
+                            // very wide prototypes: one point no longer fits a data packet, the packet header
+                            // arithmetic runs out of room, the byte stream count exceeds u16
+                            let n = *r.pick(&[1200usize, 5500, 5900, 6100, 9000, 16500, 21000, 22000, 33000, 66000]);
+                            let kind = r.usize(3);
+                            tag = match kind {
+                                0 => "wide:f64",
+                                1 => "wide:u8",
+                                _ => "wide:zero-width-mostly",
+                            };
+                            cover.hit(&format!("hostile:prototype-wide:{}:{}", tag, n));
+                            let ns = scene_first_ext(&new_items);
+                            for i in 0..n {
+                                let name = match &ns {
+                                    Some(ns) => Unknown { namespace: ns.clone(), name: format!("w{}", i) },
+                                    None => TimeStamp,
+                                };
+                                let dt = match kind {
+                                    0 => RecordDataType::Double { min: None, max: None },
+                                    1 => RecordDataType::U8,
+                                    _ => RecordDataType::Integer { min: 7, max: 7 },
+                                };
+                                p.push(Record { name, data_type: dt });
+                            }
+                            pc.points.truncate(2);
+                        }
                         0 => {
                             tag = "drop-coordinate-component";
                             if let Some(i) = p.iter().position(|x| matches!(x.name, CartesianX | CartesianY | CartesianZ | SphericalRange | SphericalAzimuth | SphericalElevation)) {
@@ -650,7 +676,7 @@ pub fn run(a: &Args, rep: &mut Reporter) {
                     }
                 }
                 if let Some(ppp) = points_per_packet(&pc.prototype) {
-                    let packets = (pc.points.len() + ppp - 1) / ppp.max(1);
+                    let packets = if ppp == 0 { 0 } else { (pc.points.len() + ppp - 1) / ppp };
                     cover.hit(&format!("packets:{}", packets.min(5)));
                 }
                 cover.hit_num("shape", crate::rng::hash_str(&crate::obs::proto_str(&pc.prototype)) % 1_000_000_007);
